@@ -217,3 +217,63 @@ def finish(ctx, t0, level, floor, explanation, assumptions, trusted_base, extra_
         print('VIOLATION property=%s replay=%s' % (prop, vpath))
         return 1
     return 0
+
+
+# ---------------------------------------------------------------------------- type-level witnesses (thorough tier)
+WITNESSES = {
+    # name of the doc-test item -> (error code, what it witnesses)
+    'IteratorBorrowsHandle': ('E0597', 'a BTreeIterator borrows the Db it was made from and cannot outlive it'),
+    'HandleIsOpaque': ('E0616', 'nothing behind the Db handle (overlay, queues, log, columns) is reachable from outside the crate'),
+    'TreeReadOnlyUnderLock': ('E0599', 'the methods of TreeReader are reachable only through the reader lock that get_tree hands out'),
+}
+
+
+def witness_results():
+    """Runs the compile-fail witnesses of /verif/witness against REPO (doc tests under the nightly toolchain, which honours the
+    error codes). Returns {name: (fails_as_expected, twin_compiles)}; cached per source hash. The crate is instantiated in the
+    cache directory with a path dependency on REPO, so scratch copies are tested against themselves."""
+    os.makedirs(CACHE, exist_ok=True)
+    src = os.path.join(VERIF, 'witness', 'src', 'lib.rs')
+    import hashlib
+    h = hashlib.sha256((core.source_hash(REPO) + hashlib.sha256(open(src, 'rb').read()).hexdigest()).encode()).hexdigest()
+    lock = open(os.path.join(CACHE, 'witness.lock'), 'w')
+    fcntl.flock(lock, fcntl.LOCK_EX)
+    try:
+        res_file = os.path.join(CACHE, 'witness-result.json')
+        if os.path.exists(res_file):
+            try:
+                j = json.load(open(res_file))
+                if j.get('hash') == h:
+                    return {k: tuple(v) for k, v in j['res'].items()}
+            except Exception:
+                pass
+        crate = os.path.join(CACHE, 'witness-crate')
+        shutil.rmtree(crate, ignore_errors=True)
+        os.makedirs(os.path.join(crate, 'src'))
+        shutil.copy2(src, os.path.join(crate, 'src', 'lib.rs'))
+        open(os.path.join(crate, 'Cargo.toml'), 'w').write(
+            '[package]\nname = "pdb-witness"\nversion = "0.0.0"\nedition = "2021"\npublish = false\n\n[dependencies]\nparity-db = { path = "%s" }\n\n[workspace]\n' % os.path.realpath(REPO))
+        shutil.copy2(os.path.join(REPO, 'Cargo.lock'), os.path.join(crate, 'Cargo.lock'))
+        env = dict(os.environ, CARGO_NET_OFFLINE='true', CARGO_TARGET_DIR=os.path.join(CACHE, 'witness-target'))
+        r = subprocess.run(['cargo', '+nightly', 'test', '--doc', '--offline'], cwd=crate, env=env, stdout=subprocess.PIPE, stderr=subprocess.STDOUT, text=True)
+        res = {}
+        for name in WITNESSES:
+            cf = re.search(r'^test src/lib\.rs - %s \(line \d+\) - compile fail \.\.\. (\w+)' % name, r.stdout, re.M)
+            tw = re.search(r'^test src/lib\.rs - %s \(line \d+\) - compile \.\.\. (\w+)' % name, r.stdout, re.M)
+            res[name] = (bool(cf and cf.group(1) == 'ok'), bool(tw and tw.group(1) == 'ok'))
+        if not re.search(r'^test result:', r.stdout, re.M):
+            sys.stdout.write(r.stdout[-3000:])
+            raise SystemExit('FATAL: the witness crate did not build / run (cargo +nightly test --doc)')
+        json.dump({'hash': h, 'res': res}, open(res_file, 'w'))
+        return res
+    finally:
+        fcntl.flock(lock, fcntl.LOCK_UN)
+
+
+def witness_obligations(ctx, names):
+    res = witness_results()
+    for n in names:
+        code, what = WITNESSES[n]
+        fails, twin = res.get(n, (False, False))
+        ctx.ob('W %s' % n, 'K10-compile-fail-witness', 'witness/src/lib.rs', '%s: the violating program is rejected with %s, and its twin without the offending line compiles' % (what, code),
+               fails and twin, '' if fails and twin else ('the violating program compiles (or fails with another error)' if not fails else 'the twin does not compile: the witness fails for the wrong reason'))
